@@ -79,10 +79,13 @@ namespace photon
         auto ret = !ctrl.joining;
         if (ctrl.joining) {
             assert(ctrl.joinable);
+            ctrl.joining = false;   // release the joiner
             ctrl.cvar.notify_all();
         } else if (ctrl.joinable) {
             ctrl.joining = true;
-            ctrl.cvar.wait(ctrl.m_mtx);
+            // until a joiner has come (a wait may also end by an interrupt)
+            while (ctrl.joining)
+                ctrl.cvar.wait(ctrl.m_mtx);
         }
         ctrl.joinable = false;
         ctrl.joining = false;
@@ -120,10 +123,14 @@ namespace photon
 
         auto ret = !pCtrl->joining;
         if (pCtrl->joining) {
+            pCtrl->joining = false; // release the finished thread
             pCtrl->cvar.notify_one();
         } else {
             pCtrl->joining = true;
-            pCtrl->cvar.wait(pCtrl->m_mtx);
+            // until the thread has finished (a wait may also end by an
+            // interrupt: returning then would recycle a running thread)
+            while (pCtrl->joining)
+                pCtrl->cvar.wait(pCtrl->m_mtx);
         }
         return ret;
     }
